@@ -1,32 +1,53 @@
 (* Props/C03.v -- property theorems only (C03 formatting never changes what a script does).
-   Core fragment of Syntax/FormatSem.v.  Scope: the parameter LINENO (the one position-dependent
-   parameter) is not part of the fragment; the whole language is covered by the behavioural
-   search of checks/c03.py, which is the oracle the property asks for. *)
+   Fragment of Syntax/FormatSem.v: simple commands with assignments, redirections and
+   here-documents, ! && || { } ( ) if while/until for case, function declarations and calls,
+   words of literals / quotes / parameters / command substitutions.
+   Scope: the parameter LINENO (the one position-dependent parameter) is not part of the fragment;
+   the whole language is covered by the behavioural search of checks/c03.py, which is the oracle
+   the property asks for. *)
 From Verif Require Import Base.Str Syntax.FormatSem Proofs.FormatSemProofs.
 
-(* everything norm erases (source lines, comments, `;` vs newline, line continuations,
-   backquote spelling, braces around a parameter name) is invisible to the semantics:
-   same final state, standard output and exit status, for every state, every abstract
-   utility semantics, every fuel (running out of fuel included) *)
+(* everything norm erases (source lines, comments, `;` vs newline, line continuations, backquote
+   spelling, braces around a parameter name, leading tabs of dash here-document lines) is
+   invisible to the semantics: same final state, standard output and exit status, for every
+   state, every abstract utility / redirection / pattern / function-table semantics, every fuel
+   (running out of fuel included) *)
 Theorem C03_norm_preserves_sem :
-  forall State lookup run set_status t t' fuel s,
+  forall State lookup run set_status redir_open redir_close set_var pmatch def_func func_body enter_func leave_func
+         t t' fuel s,
     norm_stmts t = norm_stmts t' ->
-    sem_stmts State lookup run set_status fuel t s = sem_stmts State lookup run set_status fuel t' s.
+    sem_top State lookup run set_status redir_open redir_close set_var pmatch def_func func_body enter_func leave_func fuel t s =
+    sem_top State lookup run set_status redir_open redir_close set_var pmatch def_func func_body enter_func leave_func fuel t' s.
 Proof. exact norm_preserves_sem. Qed.
 Print Assumptions C03_norm_preserves_sem.
 
-(* non-vacuity: `echo \`true\` ${x}; false # c` on line 3 vs `echo $(true) $x` / `false` on lines 1-2 *)
+(* norm is a normal form: applying it twice changes nothing (used for function bodies, which the
+   function table stores normalised) *)
+Theorem C03_norm_idempotent : forall t, norm_stmts (norm_stmts t) = norm_stmts t.
+Proof. exact (proj1 (proj2 (proj2 (proj2 (proj2 (proj2 (proj2 (proj2 norm_idem_all)))))))). Qed.
+Print Assumptions C03_norm_idempotent.
+
+(* non-vacuity: `x=1 echo \`true\` ${x} >f; false # c` on line 3 with a dash here-document whose
+   lines are indented, vs the re-laid-out text *)
 Open Scope N_scope.
 Example C03_example :
   let t  := SCons 3 None true
-              (Simple (WsCons 0 (WCons (PLit [101;99;104;111]) WNil)
-                      (WsCons 1 (WCons (PSub true (SCons 3 None false (Simple (WsCons 0 (WCons (PLit [116;114;117;101]) WNil) WsNil)) SNil)) WNil)
-                      (WsCons 0 (WCons (PParam true [120]) WNil) WsNil))))
-              (SCons 3 (Some [32;99]) false (Simple (WsCons 0 (WCons (PLit [102;97;108;115;101]) WNil) WsNil)) SNil) in
+              (Redirected
+                 (Simple (ACons false [120] (WCons (PLit [49]) WNil) ANil)
+                    (WsCons 0 (WCons (PLit [101;99;104;111]) WNil)
+                    (WsCons 1 (WCons (PSub true (SCons 3 None false (Simple ANil (WsCons 0 (WCons (PLit [116;114;117;101]) WNil) WsNil)) SNil)) WNil)
+                    (WsCons 0 (WCons (PParam true [120]) WNil) WsNil))))
+                 (RFile 1 None (WCons (PLit [102]) WNil)
+                 (RHdoc true false [69] (DLit [9;9;97;10;9;98;10;9] DNil) RNil)))
+              (SCons 3 (Some [32;99]) false (Simple ANil (WsCons 0 (WCons (PLit [102;97;108;115;101]) WNil) WsNil)) SNil) in
   let t' := SCons 1 None false
-              (Simple (WsCons 0 (WCons (PLit [101;99;104;111]) WNil)
-                      (WsCons 0 (WCons (PSub false (SCons 1 None false (Simple (WsCons 0 (WCons (PLit [116;114;117;101]) WNil) WsNil)) SNil)) WNil)
-                      (WsCons 0 (WCons (PParam false [120]) WNil) WsNil))))
-              (SCons 2 None false (Simple (WsCons 0 (WCons (PLit [102;97;108;115;101]) WNil) WsNil)) SNil) in
+              (Redirected
+                 (Simple (ACons false [120] (WCons (PLit [49]) WNil) ANil)
+                    (WsCons 0 (WCons (PLit [101;99;104;111]) WNil)
+                    (WsCons 0 (WCons (PSub false (SCons 1 None false (Simple ANil (WsCons 0 (WCons (PLit [116;114;117;101]) WNil) WsNil)) SNil)) WNil)
+                    (WsCons 0 (WCons (PParam false [120]) WNil) WsNil))))
+                 (RFile 1 None (WCons (PLit [102]) WNil)
+                 (RHdoc true false [69] (DLit [97;10;98;10] DNil) RNil)))
+              (SCons 5 None false (Simple ANil (WsCons 0 (WCons (PLit [102;97;108;115;101]) WNil) WsNil)) SNil) in
   t <> t' /\ norm_stmts t = norm_stmts t'.
 Proof. split; [discriminate|reflexivity]. Qed.
